@@ -855,6 +855,19 @@ func c01Code(g *gen, emit func(name string, ok bool, where ast.Node, what string
 						if len(z.Lhs) == 1 && len(z.Rhs) == 1 && exprText(z.Lhs[0]) == list {
 							if c, ok := z.Rhs[0].(*ast.CallExpr); ok && exprText(c.Fun) == "append" && len(c.Args) >= 2 && exprText(c.Args[0]) == list {
 								for _, a := range c.Args[1:] {
+									// a local that merely names an expression (x := e, assigned once): the expression
+									if id, ok := a.(*ast.Ident); ok {
+										var defs []ast.Expr
+										ast.Inspect(fd, func(q ast.Node) bool {
+											if d, ok := q.(*ast.AssignStmt); ok && len(d.Lhs) == 1 && len(d.Rhs) == 1 && exprText(d.Lhs[0]) == id.Name {
+												defs = append(defs, d.Rhs[0])
+											}
+											return true
+										})
+										if len(defs) == 1 {
+											a = defs[0]
+										}
+									}
 									appends = append(appends, "("+coqStr(cond)+", "+coqStr(norm(a))+")")
 								}
 								if setrepos != nil && z.Pos() > setrepos.Pos() {
